@@ -1762,6 +1762,8 @@ def _run(ck: Ck) -> None:
         _stage(ck, 'corr_exhaustive')
         corr_random(ck, escalate)
         _stage(ck, 'corr_random')
+        U.corr_options_by_attribute(ck)
+        _stage(ck, 'corr_options_by_attribute')
         corr_kvparse(ck, escalate)
         _stage(ck, 'corr_kvparse')
         corr_basetok(ck, escalate)
